@@ -14,9 +14,11 @@ FIRST = {  # outcome of the check as it was when the change arrived (exit 1 = ca
  "C05/3": "yes", "C06/3": "yes", "C07/3": "yes", "C08/3": "yes", "C09/3": "yes", "C10/3": "yes", "C11/3": "yes", "C12/3": "yes",
  # round 3 (prompt asked for less-travelled paths; duplicates of earlier changes were dropped): directories .../4
  "C02/4": "yes", "C04/4": "no", "C06/4": "yes", "C08/4": "yes", "C10/4": "yes", "C15/4": "yes", "C17/4": "no", "C20/4": "no",
+ "C11/4": "no", "C14/4": "yes", "C19/4": "yes",
  "C13/3": "yes", "C14/3": "yes", "C15/3": "yes", "C16/3": "yes", "C17/3": "yes", "C18/3": "yes", "C19/3": "yes", "C20/3": "yes",
 }
 STRENGTH = {
+ "C11/4": "the honest finalize is first attempted with the wallet's other account active (refused on the unchanged tree, then repeated under the sending account); if it is accepted everything downstream is judged -> c11:exported-proof-invalid",
  "C04/4": "histories may start with a pending send in each of two accounts whose log ids coincide (reserved / finalized / one of them cancelled); the scenario is also kept as regress/C04/seed4-*.json -> c04:*:ledger",
  "C17/4": "expiry part: new role self-send inside one account (sent and received entry share the slate id) and recipient that cancels and re-receives the same slate -> c17:expire:not-cancelled",
  "C20/4": "needs 3 preemptions (cancel_tx suspended before its last lock while the refresh re-reads the entry): beyond the enumerated bounds (1 quick / 2 thorough); 160 constructed schedules of that shape are replayed as regression inputs (regress/C20/cancel-suspended-*.json) -> c20:kernel-confirm-overwrites-cancel",
